@@ -49,9 +49,9 @@ def obligations(tier):
                 # El Torito: boot files are non-empty and their load size is a 16-bit count of 512-byte sectors
                 params.update({'minlen': 1, 'maxlen': 16383 * 2048})
                 b = 'three file lengths in [1, 33552384] (boot images: non-empty; the default load size, the block-rounded length in 512-byte sectors, is a 16-bit field)'
-            if tier == 'quick' and sk != 'sk1':
+            if tier == 'quick':
                 params['fixed'] = [2048, 2049]
-                b = 'l0 in [%d, %d], l1 = 2048, l2 = 2049 (three symbolic lengths cost 6-25 min per obligation: thorough tier)' % (params.get('minlen', 0), params.get('maxlen', 0x3ffff800))
+                b = 'l0 in [%d, %d], l1 = 2048, l2 = 2049 (three symbolic lengths cost 6-25 min per obligation: thorough tier only, so that the quick check stays far below 15 min on a loaded machine)' % (params.get('minlen', 0), params.get('maxlen', 0x3ffff800))
             obs.append({'name': 'C10.b/udf_reader/%s/%s' % (sk, skel.cfg_name(c)), 'engine': 'chx', 'module': 'vf.props.C10_h', 'func': 'udf_reader',
                         'params': params, 'cond_timeout': 1500 if tier == 'quick' else 4000, 'path_timeout': 300,
                         'bounds': 'skeleton %s; config %s; %s' % (sk, skel.cfg_name(c), b),
